@@ -170,6 +170,33 @@ func actBuild(e *Env, a J) J {
 		case "tlv":
 			tc.BuildTransform(uint8(gi(c, "tt")), uint16(gi(c, "tid")), u16p(gi(c, "at")), nil, oct("avl"))
 		}
+	case "SubReset":
+		switch gs(c, "lvl") {
+		case "attrs":
+			b.cp.ConfigurationAttribute.Reset()
+		case "sel":
+			if b.last == "TSi" {
+				b.tsi.TrafficSelectors.Reset()
+			} else {
+				b.tsr.TrafficSelectors.Reset()
+			}
+		case "props":
+			b.sa.Proposals.Reset()
+			b.prop = nil
+		case "tr":
+			switch gi(c, "c") {
+			case 1:
+				b.prop.EncryptionAlgorithm.Reset()
+			case 2:
+				b.prop.PseudorandomFunction.Reset()
+			case 3:
+				b.prop.IntegrityAlgorithm.Reset()
+			case 4:
+				b.prop.DiffieHellmanGroup.Reset()
+			case 5:
+				b.prop.ExtendedSequenceNumbers.Reset()
+			}
+		}
 	case "DeletePayload":
 		var spis []uint32
 		for _, x := range gl(c, "spis") {
@@ -183,6 +210,9 @@ func actBuild(e *Env, a J) J {
 		b.cont.BuildEAPSuccess(uint8(gi(c, "id")))
 	case "EAPfailure":
 		b.cont.BuildEAPfailure(uint8(gi(c, "id")))
+	case "EAPExpanded":
+		pe := b.cont.BuildEAP(eap.EapCode(gi(c, "code")), uint8(gi(c, "id")))
+		pe.EapTypeData = message.BuildEapExpanded(uint32(gi(c, "vid")), u32of(gox(c, "vtype")), oct("data"))
 	case "EAP5GStart":
 		b.cont.BuildEAP5GStart(uint8(gi(c, "id")))
 	case "EAP5GNAS":
